@@ -114,6 +114,23 @@ def check(case, out):
             out.fail("intersection", klass, f"{list(KU)} & {list(KV)} = {list(X)}; per-knot minimum is {expX}")
         if [oracle.frac(x) for x in X2] != [oracle.frac(x) for x in X]:
             out.fail("intersection-commutative", klass, f"U&V = {list(X)} but V&U = {list(X2)}")
+    # aliasing: results are new objects; changing them in place must not change an operand
+    for res in (KU | KV, KU & KU, KU | KU, KV | KV):
+        if res is KU or res is KV:
+            out.fail("result-aliases-operand", klass, f"an operator returned one of its operands ({list(res)})")
+            break
+        try:
+            res.shift(lib.conv_knot(F(1), num))
+            res.degree = res.degree + 1
+        except Exception as exc:
+            if not lib.from_library(exc):
+                raise
+    if not diffdeg:
+        res = KU & KV
+        if res is KU or res is KV:
+            out.fail("result-aliases-operand", klass, "& returned one of its operands")
+        else:
+            res.shift(lib.conv_knot(F(1), num))
     # in-place forms
     K3 = lib.KnotVector(list(U))
     K3 |= other
